@@ -451,12 +451,23 @@ func (r *resolver) elem(ds *ast.Schema, typ, field string, t *ast.Type, parentKe
 		if len(pts) == 0 {
 			return nil
 		}
-		names := make([]string, len(pts))
-		for i, p := range pts {
-			names[i] = p.Name
+		var names []string
+		for _, p := range pts {
+			if p.Kind == ast.Object { // gqlparser lists implementing interfaces as possible types too
+				names = append(names, p.Name)
+			}
+		}
+		if len(names) == 0 {
+			return nil
 		}
 		sort.Strings(names)
-		c := ds.Types[names[pick%len(names)]]
+		// list entries step through the member types one by one (pick moves by two per
+		// entry, which would keep a two-member union homogeneous)
+		tpick := pick
+		if idx > 0 {
+			tpick -= idx
+		}
+		c := ds.Types[names[tpick%len(names)]]
 		if implementsNode(c) {
 			return r.entity(c.Name, pick%3+1)
 		}
